@@ -121,6 +121,9 @@ def gen(seed: int, i: int, tier: str) -> dict:
             lines.append([t, rng.choice([f"{n};255;0;0;17;2.2\n", f"{n};0;0;0;3;c\n", f"{n};0;1;0;2;{rng.randint(0, 9)}\n",
                                          f"{n};255;3;0;0;{rng.randint(0, 100)}\n", f"{n};255;3;0;11;sk{rng.randint(0, 9)}\n"])])
     tapes = {"exec.lat": [rng.choice([0, 0, 1, 2, 3]) for _ in range(rng.randint(0, 12))]}
+    if body == "lines" and rng.random() < 0.6:
+        # slow file operations for the whole session, not only for the load and the first save
+        tapes["exec.lat"] = [rng.choice([0, 1, 2, 3]) for _ in range(rng.randint(12, 36))]
     fr = rng.random()
     if fr < 0.12:
         tapes["connect.fail"] = [rng.choice(["refused", "timeout", "unreachable"])] if kind in ("tcp", "serial") else [1]
@@ -141,6 +144,10 @@ def gen(seed: int, i: int, tier: str) -> dict:
         tapes["exec.cancel_skips"] = [rng.choice([0, 1]) for _ in range(6)]
     cfg = {"kind": kind, "init": init, "image": rand_snap(rng), "body": body, "duration": dur,
            "reenter": rng.random() < 0.3, "reenter_for": rng.choice([0, 0.5, 2.5, 901.5])}
+    if body == "lines":
+        # how long after the last received message the context is left: anything that the messages set in motion
+        # (a deferred save, a timer) may be in flight at that moment
+        cfg["post_delay"] = rng.choice([0.25, 0.25, 1.5, 4.5, 9.5, 10.0, 10.5, 11.5, 12.5, 15.5, 30.5, 60.5, 61.5, 300.5])
     if rng.random() < 0.06 and not any(k for k in tapes if "fail" in k):
         # the application cancels / times out the task that is entering the context while connect() is pending
         lat = rng.choice([2, 5])
@@ -307,7 +314,7 @@ def _run(scn, cfg, w, res):
                 except AIOMySensorsError:
                     gen_ = gw.listen()
             await gen_.aclose()
-            await asyncio.sleep(0.25)
+            await asyncio.sleep(cfg.get("post_delay", 0.25))
         else:
             if cfg["duration"]:
                 await asyncio.sleep(cfg["duration"])
@@ -352,6 +359,11 @@ def _run(scn, cfg, w, res):
         except BaseException as exc:  # noqa: BLE001
             st["exc"] = exc
             w.log("harness", "context-raised", type(exc).__name__)
+        # what is still running at the very moment the context has been left (or entering it has failed): a task that
+        # finishes a little later on its own is a leftover all the same
+        me = asyncio.current_task()
+        st["tasks_at_return"] = sorted({getattr(x.get_coro(), "__qualname__", "?") for x in asyncio.all_tasks()
+                                        if x is not me and not x.done()})
         st["done"] = True
 
     t = loop.create_task(main())
@@ -398,6 +410,10 @@ def _run(scn, cfg, w, res):
         res.probes["cancelled_while_exiting"] += 1
         return
     # ---- leftovers ----
+    if st.get("tasks_at_return") and cancel_phase is None:
+        res.violate(PROP, "no-task-left-running",
+                    f"at-return:{','.join(n.split('.')[-1] for n in st['tasks_at_return'])}",
+                    f"tasks still pending when the context manager returned: {st['tasks_at_return']}")
     loop.run_until_idle(0)
     left = [x for x in loop.pending_tasks()]
     where = "after-connect-failure" if st["entered"] is None else ("after-disconnect-failure" if disconnect_fault else "after-exit")
